@@ -716,6 +716,60 @@ func TestVerifC43(t *testing.T) {
 	wg.Wait()
 	c.Set("box1_alphabet", map[string]int{"curves": 2, "keys_per_curve": 3, "passphrases": len(passes), "kdf_parameter_sets": len(kdfs)})
 
+	// ---- Box 1b: near-miss passphrases ------------------------------------------------------------------------------
+	// "refused with any other passphrase": every passphrase one byte away from the real one (any byte value appended,
+	// prepended, substituted for the last byte, or the last byte dropped), plus the edits a lenient reader would make
+	// (line endings, blanks, NUL, case, doubling), against the seed files of the cheapest KDF set.
+	{
+		var near, nearRefused atomic.Int64
+		for _, sd := range seeds {
+			if sd.tuple.Memory != kdfs[0].mem {
+				continue
+			}
+			real := sd.pass
+			var cands [][]byte
+			add := func(b []byte) {
+				if !bytes.Equal(b, real) {
+					cands = append(cands, b)
+				}
+			}
+			for v := 0; v < 256; v++ {
+				add(append(append([]byte{}, real...), byte(v)))
+				add(append([]byte{byte(v)}, real...))
+				if len(real) > 0 {
+					add(append(append([]byte{}, real[:len(real)-1]...), byte(v)))
+				}
+			}
+			if len(real) > 0 {
+				add(real[:len(real)-1])
+				add(real[1:])
+				add(bytes.ToUpper(real))
+				add(bytes.ToLower(real))
+			}
+			for _, suf := range []string{"\r\n", "\n\n", "\n\r", " \n", "\t", "  ", "\x00\x00"} {
+				add(append(append([]byte{}, real...), suf...))
+				add(append([]byte(suf), real...))
+			}
+			add(append(append([]byte{}, real...), real...))
+			for _, cand := range cands {
+				_, got, _, err := DecryptAndUnmarshalSigningPrivateKey(append([]byte{}, cand...), append([]byte{}, sd.pemB...))
+				near.Add(1)
+				r.decrypts.Add(1)
+				if err == nil || got != nil {
+					c.Violation(fmt.Sprintf("%s encrypted key: a wrong passphrase opens the file", sd.curve)+" (near miss of the real passphrase)",
+						map[string]any{"case": sd.label, "real_passphrase_hex": hex.EncodeToString(real), "decrypt_passphrase_hex": hex.EncodeToString(cand), "returned_key_hex": hex.EncodeToString(got)})
+					break
+				}
+				nearRefused.Add(1)
+			}
+		}
+		c.Set("near_miss_passphrases_tried", near.Load())
+		c.Set("near_miss_passphrases_refused", nearRefused.Load())
+		if c.Violations() == 0 {
+			c.Require(near.Load() >= 2000, "near-miss passphrase box too small: %d", near.Load())
+		}
+	}
+
 	// ---- Box 2 ----------------------------------------------------------------------------------------------------
 	type task func()
 	var tasks []task
